@@ -68,7 +68,10 @@ RULE = ('sequential cases (fake courier inline, virtual clock): 3-14 ops drawn f
         'element exactly once, order per consumer, StopIteration for every call beyond the end).  Coverage is gated on the '
         'reference (local) pass.  '
         'non-trivial = at least two evaluated ops of which one returns a remote handle, propagates an exception or '
-        'passes the end of an iterator; distinct = distinct canonical case JSON')
+        'passes the end of an iterator; distinct = distinct canonical case JSON.  span cases: 1-4 calls whose handlers block '
+        'inside the evaluation, every start<finish interleaving, a shutdown request at a random position (model + oracle).  '
+        'arr cases: a cache_result_ call with an ndarray / list / dict / ambiguous-== / tuple argument evaluated 2-6 times '
+        'through the client (same or re-traced expression), attr/index chains on it and on a remote handle (oracle only).')
 
 HB = 100.0          # heartbeat threshold of the client (virtual seconds)
 KINDS = ['ValueError', 'TypeError', 'KeyError', 'IndexError', 'RuntimeError', 'AssertionError',
@@ -366,6 +369,71 @@ def fixed_cases():
   return out
 
 
+def gen_span_case(rng):
+  """1-4 calls whose handlers are in flight (blocked inside the evaluation) while other steps happen: every
+  interleaving of start_i < finish_i, with a shutdown request at a random position (or none)."""
+  n = rng.randrange(1, 5)
+  progs = []
+  for i in range(n):
+    if rng.random() < 0.6:
+      progs.append({'p': 'raise', 'x': X(rng.choice(KINDS[:8]), rng.choice(['boom', 'torn down']))})
+    else:
+      progs.append(P_expr(traced(rng.choice([V_int(rng.randrange(9)), V_str('ab'), V_tup([V_int(1), V_int(2)])]))))
+  tokens = [('start', i) for i in range(n)] + [('finish', i) for i in range(n)]
+  while True:
+    rng.shuffle(tokens)
+    if all(tokens.index(('start', i)) < tokens.index(('finish', i)) for i in range(n)):
+      break
+  steps = [{'s': 'start', 'id': i, 'prog': progs[i]} if k == 'start' else {'s': 'finish', 'id': i} for k, i in tokens]
+  if rng.random() < 0.8:
+    steps.insert(rng.randrange(0, len(steps) + 1), {'s': 'shutdown'})
+  return {'kind': 'span', 'fn_max': 128, 'steps': steps}
+
+
+def gen_arr_case(rng):
+  """A cached lazy call (`cache_result_=True`) whose argument is unhashable and/or has an ambiguous `==`,
+  evaluated through the client several times, with attribute/index chains on the cached object."""
+  kind = rng.choice(['ndarray', 'ndarray', 'ndarray2d', 'list', 'dict', 'amb', 'tuple'])
+  steps = []
+  for _ in range(rng.randrange(2, 7)):
+    k = rng.random()
+    if k < 0.45:
+      steps.append(['call', rng.randrange(1, 4)])
+    elif k < 0.65:
+      steps.append(['attr', rng.choice([0, -1, 1, 7])])
+    elif k < 0.8:
+      steps.append(['hcall', rng.randrange(1, 4)])
+    elif k < 0.92:
+      steps.append(['hattr', rng.choice([0, -1, 7])])
+    else:
+      steps.append(['clear'])
+  return {'kind': 'arr', 'fn_max': 128, 'argkind': kind, 'weights': [rng.randrange(1, 5) for _ in range(3)],
+          'reuse': rng.random() < 0.8, 'steps': steps}
+
+
+def fixed_span_arr_cases():
+  boom = {'p': 'raise', 'x': X('ValueError', 'boom')}
+  val = P_expr(traced(V_int(7)))
+  out = []
+  # started before the shutdown request, finished after it: failing -> TimeoutError, succeeding -> value
+  out.append({'kind': 'span', 'fn_max': 128, 'steps': [
+      {'s': 'start', 'id': 0, 'prog': boom}, {'s': 'start', 'id': 1, 'prog': val}, {'s': 'start', 'id': 2, 'prog': boom},
+      {'s': 'shutdown'}, {'s': 'finish', 'id': 2}, {'s': 'finish', 'id': 1}, {'s': 'finish', 'id': 0}]})
+  # finished before / started after the request; no request at all
+  out.append({'kind': 'span', 'fn_max': 128, 'steps': [
+      {'s': 'start', 'id': 0, 'prog': boom}, {'s': 'finish', 'id': 0}, {'s': 'shutdown'},
+      {'s': 'start', 'id': 1, 'prog': boom}, {'s': 'finish', 'id': 1}]})
+  out.append({'kind': 'span', 'fn_max': 128, 'steps': [
+      {'s': 'start', 'id': 0, 'prog': boom}, {'s': 'start', 'id': 1, 'prog': val}, {'s': 'finish', 'id': 1},
+      {'s': 'finish', 'id': 0}]})
+  for kind in ('ndarray', 'ndarray2d', 'list', 'dict', 'amb', 'tuple'):
+    for reuse in (True, False):
+      out.append({'kind': 'arr', 'fn_max': 128, 'argkind': kind, 'weights': [1, 2, 3], 'reuse': reuse,
+                  'steps': [['call', 2], ['call', 2], ['attr', -1], ['call', 3], ['hcall', 2], ['hattr', 0],
+                            ['clear'], ['call', 2], ['attr', 7]]})
+  return out
+
+
 def gen_cases(ctx):
   rng = ctx.rng
   yield from ctx.corpus()
@@ -378,6 +446,11 @@ def gen_cases(ctx):
     n = rng.randrange(0, 9)
     yield {'kind': 'shared', 'fn_max': 128, 'source': rng.choice(['tuple', 'queue']),
            'items': list(range(100, 100 + n)), 'n_threads': rng.randrange(2, 4), 'per_thread': rng.randrange(1, 6)}
+  yield from fixed_span_arr_cases()
+  for i in range(60 if ctx.quick else 800):
+    yield gen_span_case(rng)
+  for i in range(150 if ctx.quick else 2000):
+    yield gen_arr_case(rng)
   n_conc = 250 if ctx.quick else 3000
   for i in range(n_conc):
     yield {'kind': 'conc', 'fn_max': 128,
@@ -923,9 +996,199 @@ def oracle_shared(case, obs):
   return None
 
 
+def _span_lazy(side, lf, prog, token, i):
+  if prog['p'] == 'raise':
+    x = prog['x']
+    return lf.trace(lib14.blocked)(token, i, (x['kind'], x['msg'], x.get('code', 0)), None)
+  assert prog['p'] == 'expr' and prog['e']['t'] == 'traced', prog
+  return lf.trace(lib14.blocked)(token, i, None, side.dec(prog['e']['v'], []))
+
+
+def run_span(case):
+  """Calls in flight: each `start` launches a client thread whose handler blocks inside the evaluation; `finish`
+  releases it and waits for the client; `shutdown` is requested by another party in between."""
+  E = _setup()
+  lf = E['lf']
+  lf.clear_cache()
+  lf.clear_object()
+  lib.reset()
+  rem = Remote(case, 'threaded')
+  token = f'{os.getpid()}_{next(_N)}'
+  n = 1 + max([st['id'] for st in case['steps'] if 'id' in st] + [0])
+  gates = lib14.make_gates(token, n)
+  threads, results, out, hung = {}, {}, [], False
+  try:
+    for st in case['steps']:
+      if st['s'] == 'start':
+        i = st['id']
+        lazy = _span_lazy(rem, lf, st['prog'], token, i)
+
+        def work(i=i, lazy=lazy):
+          try:
+            results[i] = {'ok': rem.enc_res(rem.client.get_result(lazy))}
+          except Exception as e:  # pylint: disable=broad-except
+            results[i] = {'err': rem.enc_exc(e)}
+        threads[i] = threading.Thread(target=work, daemon=True)
+        threads[i].start()
+        if not gates['started'][i].wait(20):
+          hung = True
+          break
+      elif st['s'] == 'finish':
+        i = st['id']
+        gates['release'][i].set()
+        threads[i].join(20)
+        if threads[i].is_alive():
+          hung = True
+          break
+        out.append(dict(results[i], id=i))
+      else:
+        rem.fc.Client(rem.name).shutdown()
+  finally:
+    for ev in gates['release']:
+      ev.set()
+    for t in threads.values():
+      t.join(5)
+    lib14.GATES.pop(token, None)
+    rem.close()
+  # reference: the same programs evaluated locally (nothing blocks, nothing shuts down)
+  loc = Local()
+  local = {}
+  for st in case['steps']:
+    if st['s'] == 'start':
+      try:
+        local[st['id']] = {'ok': loc.enc_local(lf.maybe_make(loc.build(st['prog'], [])))}
+      except Exception as e:  # pylint: disable=broad-except
+        local[st['id']] = {'err': loc.enc_exc(e)}
+  lf.clear_cache()
+  lf.clear_object()
+  return {'span': out, 'span_local': [dict(local[o['id']], id=o['id']) for o in out], 'hung': hung,
+          'remote': [], 'local': []}
+
+
+def oracle_span(case, obs):
+  """A call answers what local evaluation answers — unless a shutdown was requested before its evaluation
+  ended (even if the call had started earlier): then a failing call answers the retriable TimeoutError and a
+  succeeding call still answers its value.  Nothing hangs."""
+  if obs.get('hung'):
+    return 'a call in flight did not finish (hang)'
+  shut_at = next((k for k, st in enumerate(case['steps']) if st['s'] == 'shutdown'), None)
+  fin_at = {st['id']: k for k, st in enumerate(case['steps']) if st['s'] == 'finish'}
+  start_at = {st['id']: k for k, st in enumerate(case['steps']) if st['s'] == 'start'}
+  for r, l in zip(obs['span'], obs['span_local']):
+    i = r['id']
+    during = shut_at is not None and shut_at < fin_at[i]
+    where = (f'call {i} (started {"before" if shut_at is None or start_at[i] < shut_at else "after"} and finished '
+             f'{"after" if during else "before/without"} the shutdown request)')
+    if 'ok' in l:
+      if r.get('ok') != l['ok']:
+        return f'{where}: local evaluation returns {jdump(l["ok"])[:100]}, the client got {jdump(r)[:140]}'
+    elif 'ok' in r:
+      return f'{where}: local evaluation raises {l["err"]}, the client returned {jdump(r["ok"])[:100]}'
+    elif during:
+      if r['err']['kind'] != 'TimeoutError':
+        return (f'{where}: the evaluation failed while the server was shutting down; the client must get the '
+                f'retriable TimeoutError, got {r["err"]}')
+    elif not _same_exc(r['err'], l['err'], False):
+      return f'{where}: local evaluation raises {l["err"]}, the client raised {r["err"]}'
+  if len(obs['span']) != len(fin_at):
+    return 'not every call finished'
+  return None
+
+
+def run_arr(case):
+  """A cached call with an unhashable / ambiguous-== argument evaluated several times remotely vs locally."""
+  from harness.core import canon
+  E = _setup()
+  lf = E['lf']
+
+  def enc(thunk):
+    try:
+      return {'ok': canon(thunk())}
+    except Exception as e:  # pylint: disable=broad-except
+      return {'err': {'kind': c14_err(e), 'msg': re.sub(r'id=\d+', 'id=#', str(e))[:120]}}
+
+  rem = Remote(case, 'inline')
+  try:
+    # remote: the handle ops go through the RemoteObject
+    def remote_pass():
+      lf.clear_cache(); lf.clear_object()
+      arg = lib14.as_arg(case['argkind'], case['weights'])
+      mk = lambda: lf.trace(lib14.Scaler)(arg, cache_result_=True)
+      model, out, h = mk(), [], None
+      for st in case['steps']:
+        if not case['reuse']:
+          model = mk()
+        if st[0] == 'call':
+          out.append(enc(lambda: rem.client.get_result(model(st[1]))))
+        elif st[0] == 'attr':
+          out.append(enc(lambda: rem.client.get_result(model.weights[st[1]])))
+        elif st[0] == 'clear':
+          lf.clear_cache()
+          out.append({'ok': 'cleared'})
+        else:
+          if h is None:
+            h = rem.client.get_result(lf.trace(lib14.Scaler)(arg, lazy_result_=True))
+          if st[0] == 'hcall':
+            out.append(enc(lambda: h(st[1]).result_()))
+          else:
+            out.append(enc(lambda: h.weights[st[1]].result_()))
+      return out
+
+    def local_pass():
+      lf.clear_cache(); lf.clear_object()
+      arg = lib14.as_arg(case['argkind'], case['weights'])
+      mk = lambda: lf.trace(lib14.Scaler)(arg, cache_result_=True)
+      model, out, obj = mk(), [], None
+      for st in case['steps']:
+        if not case['reuse']:
+          model = mk()
+        if st[0] == 'call':
+          out.append(enc(lambda: lf.maybe_make(model(st[1]))))
+        elif st[0] == 'attr':
+          out.append(enc(lambda: lf.maybe_make(model.weights[st[1]])))
+        elif st[0] == 'clear':
+          lf.clear_cache()
+          out.append({'ok': 'cleared'})
+        else:
+          if obj is None:
+            obj = lf.maybe_make(lf.maybe_make(lf.trace(lib14.Scaler)(arg, lazy_result_=True)))
+          if st[0] == 'hcall':
+            out.append(enc(lambda: obj(st[1])))
+          else:
+            out.append(enc(lambda: obj.weights[st[1]]))
+      return out
+    try:
+      r = remote_pass()
+    except Exception as e:  # pylint: disable=broad-except
+      r = [{'err': {'kind': 'crash', 'msg': f'{type(e).__name__}: {e}'[:160]}}]
+  finally:
+    rem.close()
+  l = local_pass()
+  lf.clear_cache()
+  lf.clear_object()
+  return {'arr': r, 'arr_local': l, 'remote': [], 'local': []}
+
+
+def oracle_arr(case, obs):
+  """Remote evaluation = local evaluation, step by step (value, or exception type and message)."""
+  r, l = obs['arr'], obs['arr_local']
+  if len(r) != len(l):
+    return f'remote pass gave {jdump(r)[:200]}, local pass {jdump(l)[:200]}'
+  for i, (a, b) in enumerate(zip(r, l)):
+    if a != b:
+      return (f'step {i} {case["steps"][i]} (argument kind {case["argkind"]}, cached call evaluated before: '
+              f'{sum(1 for s in case["steps"][:i] if s[0] in ("call", "attr"))}x): the client got {jdump(a)[:160]}, '
+              f'local evaluation gives {jdump(b)[:160]}')
+  return None
+
+
 def run_impl(case):
   if case['kind'] == 'shared':
     return run_shared(case)
+  if case['kind'] == 'span':
+    return run_span(case)
+  if case['kind'] == 'arr':
+    return run_arr(case)
   E = _setup()
   lf = E['lf']
   fn_cache = lf.LazyFn.result_.cache_info.__self__
@@ -987,6 +1250,12 @@ def run_impl(case):
 # ----------------------------------------------------------------------------- model
 
 def model_requests(case):
+  if case['kind'] == 'span':
+    return [dict(model='remote', fn_max=128, obj_max=1024, steps=case['steps'])]
+  if case['kind'] == 'arr':
+    # `__eq__` / `__hash__` of call arguments are outside the Lean model (C17 keys the cache structurally);
+    # these cases are decided by the oracle (remote = local) alone
+    return [dict(model='remote', fn_max=128, obj_max=1024, threads=[])]
   if case['kind'] == 'shared':
     # any serialisation of the calls is a C14_iter / C14_iter_queue run; the sequential behaviour is tied by the
     # 'seq' cases, the concurrent one is decided by the oracle
@@ -995,6 +1264,8 @@ def model_requests(case):
 
 
 def model_obs(case, resps):
+  if case['kind'] == 'span':
+    return {'span': resps[0]['replies']}
   conc = case['kind'] == 'conc'
   out = []
   for t in resps[0]['threads']:
@@ -1015,7 +1286,18 @@ def _same_exc(a, b, lenient_msg):
 
 
 def compare(impl, model):
-  if 'shared' in impl:
+  if 'shared' in impl or 'arr' in impl:
+    return None
+  if 'span' in impl:
+    if impl.get('hung'):
+      return 'a call in flight did not finish'
+    a, b = impl['span'], model['span']
+    if len(a) != len(b):
+      return f'{len(a)} replies (code) vs {len(b)} (model)'
+    for x, y in zip(a, b):
+      if x['id'] != y['id'] or ('ok' in x) != ('ok' in y) or ('ok' in x and x['ok'] != y['ok']) or \
+          ('err' in x and not _same_exc(x['err'], y['err'], y['err'].get('msg', '') == '')):
+        return f'call {x["id"]}: {jdump(x)[:200]} (code) vs {jdump(y)[:200]} (model)'
     return None
   if impl.get('crash'):
     return 'the remote pass raised outside any client call: ' + impl['crash'][-300:]
@@ -1190,6 +1472,10 @@ def _failures(case, obs):
 def oracle(case, obs):
   if case['kind'] == 'shared':
     return oracle_shared(case, obs)
+  if case['kind'] == 'span':
+    return oracle_span(case, obs)
+  if case['kind'] == 'arr':
+    return oracle_arr(case, obs)
   return _oracle_main(case, obs)
 
 
@@ -1255,6 +1541,25 @@ def collect(case, obs):
   """Coverage is measured on the case and on the *reference* (local) pass, so that a change of the code under
   test cannot hide a branch from the generator-quality gate; results of the remote pass are histogrammed only."""
   _stat('kind', case['kind'])
+  if case['kind'] == 'span':
+    shut_at = next((k for k, st in enumerate(case['steps']) if st['s'] == 'shutdown'), None)
+    for k, st in enumerate(case['steps']):
+      if st['s'] == 'finish' and shut_at is not None:
+        k0 = next(j for j, s2 in enumerate(case['steps']) if s2['s'] == 'start' and s2['id'] == st['id'])
+        fails = case['steps'][k0]['prog']['p'] == 'raise'
+        if k0 < shut_at < k:
+          _stat('branch', 'in flight across the shutdown request: ' + ('fails' if fails else 'succeeds'))
+    if oracle_span(case, obs):
+      STATS['failed'] = {'1': 1}
+    return
+  if case['kind'] == 'arr':
+    _stat('arr argument', case['argkind'] + ('' if case['reuse'] else ' (re-traced)'))
+    n = sum(1 for st in case['steps'] if st[0] in ('call', 'attr'))
+    if n >= 2 and case['reuse'] and case['argkind'].startswith('ndarray'):
+      _stat('branch', 'cached call with an array argument evaluated remotely twice')
+    if oracle_arr(case, obs):
+      STATS['failed'] = {'1': 1}
+    return
   if case['kind'] == 'shared':
     _stat('shared source', case['source'])
     _stat('shared consumers', case['n_threads'])
@@ -1316,6 +1621,10 @@ def nontrivial(case, obs):
   collect(case, obs)
   if case['kind'] == 'shared':
     return len(case['items']) >= 2
+  if case['kind'] == 'span':
+    return len(case['steps']) >= 3
+  if case['kind'] == 'arr':
+    return len(case['steps']) >= 2
   n_eval, interesting = 0, False
   for ops, loc in zip(case['threads'], obs['local']):
     for op, l in zip(ops, loc):
@@ -1335,7 +1644,9 @@ def extra(ctx):
   need = ['end of iteration', 'StopIteration again after exhaustion', 'chain ok', 'chain raises',
           'failing call after shutdown', 'value after shutdown', 'init_iterator after shutdown', 'remote handle',
           'queue batch', 'raw reply', 'raw reply (handler raises)', 'raw reply is a handle (bytes inspected)',
-          'tracing error']
+          'tracing error', 'in flight across the shutdown request: fails',
+          'in flight across the shutdown request: succeeds',
+          'cached call with an array argument evaluated remotely twice']
   missing = [b for b in need if not STATS.get('branch', {}).get(b)]
   for f in ('deadline', 'deadline+not-alive', 'deadline_after', 'app_error', 'die', 'dead'):
     if not STATS.get('fault', {}).get(f):
@@ -1358,7 +1669,7 @@ def finding(case, what):
 # ----------------------------------------------------------------------------- search helpers
 
 def neighbours(case, rng):
-  if case['kind'] == 'shared':
+  if case['kind'] in ('shared', 'span', 'arr'):
     return
   for t in range(len(case['threads'])):
     for i in range(len(case['threads'][t])):
@@ -1401,8 +1712,18 @@ def _drop(case, t, i):
 
 
 def shrink(case, fails):
-  if case['kind'] == 'shared':
+  if case['kind'] in ('shared', 'span'):
     return case
+  if case['kind'] == 'arr':
+    cur, changed = case, True
+    while changed:
+      changed = False
+      for i in reversed(range(len(cur['steps']))):
+        c = dict(cur, steps=cur['steps'][:i] + cur['steps'][i + 1:])
+        if c['steps'] and fails(c):
+          cur, changed = c, True
+          break
+    return cur
   cur = case
   changed = True
   while changed:
